@@ -409,6 +409,15 @@ func (g *PG) stmt(depth int) {
 		g.scopes = append(g.scopes, nil)
 		g.inLoop++
 		switch {
+		case r.Intn(6) == 0: // a nil slice / nil map: the loop body never runs, nothing but the loop's own slots is touched
+			g.f("range-nil")
+			nn, kk, vv := g.fresh("z"), g.fresh("k"), g.fresh("e")
+			if r.Bool() {
+				g.w("var %s []int\n", nn)
+			} else {
+				g.w("var %s map[string]int\n", nn)
+			}
+			g.w("for %s, %s := range %s {\nprintln(\"never\", %s, %s)\n}\n", kk, vv, nn, kk, vv)
 		case len(g.vars("[]int")) > 0 && r.Chance(0.6):
 			g.f("range-slice")
 			kk, vv := g.fresh("k"), g.fresh("e")
